@@ -227,6 +227,28 @@ func init() {
 		"os.Setenv": func(w *Worker, _ *ssa.Function, args []Value, _ ssa.CallInstruction) Value {
 			return IfaceV{} // environment comes from the job configuration (os.Getenv intrinsic)
 		},
+		"time.Now": func(w *Worker, fn *ssa.Function, _ []Value, _ ssa.CallInstruction) Value {
+			return w.zero(fn.Signature.Results().At(0).Type())
+		},
+		"(time.Time).Add": func(w *Worker, _ *ssa.Function, args []Value, _ ssa.CallInstruction) Value { return args[0] },
+		"time.After":      func(w *Worker, _ *ssa.Function, _ []Value, _ ssa.CallInstruction) Value { return OpaqueV{"timer channel"} },
+		"time.Since": func(w *Worker, _ *ssa.Function, _ []Value, _ ssa.CallInstruction) Value { return w.B.Const(0, 64) },
+		"fmt.Sprintf": func(w *Worker, _ *ssa.Function, args []Value, _ ssa.CallInstruction) Value {
+			return w.sprintf(args[0].(StrV), args[1].(SliceV))
+		},
+		"fmt.Errorf": func(w *Worker, fn *ssa.Function, args []Value, _ ssa.CallInstruction) Value {
+			msg := w.sprintf(args[0].(StrV), args[1].(SliceV))
+			en := w.P.funcByName("errors", "New")
+			return w.call(&FuncV{fn: en}, []Value{msg}, nil)
+		},
+		"(*regexp.Regexp).FindStringSubmatch": func(w *Worker, _ *ssa.Function, args []Value, _ ssa.CallInstruction) Value {
+			re, ok := args[0].(OpaqueV)
+			if !ok || re.desc != "regexp:^GET /(?:\\?([a-z0-9=&]+))? HTTP" {
+				w.fail("FindStringSubmatch: only the literal getRegex pattern is modelled (got %v)", args[0])
+			}
+			fn := w.P.funcByName(modPath+"/src/zzv", "M_getRegex_FindStringSubmatch")
+			return w.call(&FuncV{fn: fn}, []Value{args[1]}, nil)
+		},
 		"runtime.GC":         nop,
 		"runtime.Gosched":    nop,
 		"runtime.KeepAlive":  nop,
@@ -427,3 +449,51 @@ func (w *Worker) liftDomain(t *Term, f func(uint64) uint64, resW int) (*Term, bo
 }
 
 var _ = types.Typ
+
+// sprintf: minimal fmt.Sprintf for %d %s %v %q-free formats (formatting is never the subject of a check).
+func (w *Worker) sprintf(format StrV, args SliceV) StrV {
+	f, ok := concreteStr(format)
+	if !ok {
+		w.fail("Sprintf with symbolic format")
+	}
+	var out []*Term
+	ai := 0
+	for i := 0; i < len(f); i++ {
+		if f[i] != '%' || i+1 >= len(f) {
+			out = append(out, w.B.Const(uint64(f[i]), 8))
+			continue
+		}
+		i++
+		if f[i] == '%' {
+			out = append(out, w.B.Const('%', 8))
+			continue
+		}
+		if ai >= len(args.s) {
+			w.fail("Sprintf: missing argument")
+		}
+		a := args.s[ai].(IfaceV)
+		ai++
+		switch v := a.v.(type) {
+		case StrV:
+			out = append(out, v.b...)
+		case *Term:
+			if v.W == 0 {
+				if w.decide(v) {
+					out = append(out, w.strConst("true").b...)
+				} else {
+					out = append(out, w.strConst("false").b...)
+				}
+			} else {
+				n := w.concInt(v, "Sprintf integer")
+				if !isSigned(a.t) {
+					out = append(out, w.strConst(fmt.Sprintf("%d", uint64(n))).b...)
+				} else {
+					out = append(out, w.strConst(fmt.Sprintf("%d", n)).b...)
+				}
+			}
+		default:
+			out = append(out, w.strConst("<value>").b...)
+		}
+	}
+	return StrV{out}
+}
